@@ -940,6 +940,42 @@ def rule_npt_never_exceeds_its_maximum(eng, rep, rule="C18-10.number-of-points-n
     rep.require_count(rule, "places that grow the interpolation set", n_inst, 2)
 
 
+def rule_initial_radius_is_below_the_cap(eng, rep, rule="C18-3b.the-initial-radius-is-validated-against-the-cap-of-delta"):
+    """Every growth of delta is wrapped in min(., CAP) (C18-3; CAP = 1e10 today, read off those caps).  The table also records delta in the first row, where it is the
+    caller's rhobeg (`self.delta = rhobeg` in Controller.__init__ and at every restart): 'delta <= CAP at every recorded iteration' therefore needs `rhobeg <= CAP`, which
+    only solve's validation block can establish -- an input-error guard whose condition is `rhobeg > CAP` (or `>=`)."""
+    from .c07 import _input_error_sites, _site_guard_sets
+    caps = set()
+    for fi in eng.prog.functions.values():
+        for node in eng.prog.own_nodes(fi):
+            if isinstance(node, ast.Assign) and any(_is_ctrl_attr(eng, fi, t, "delta") for t in node.targets):
+                v = node.value
+                if isinstance(v, ast.Call) and isinstance(v.func, ast.Name) and v.func.id == "min":
+                    for a in v.args:
+                        c = const_value(a)
+                        if c is not None and c >= 1e6:
+                            caps.add(float(c))
+    if not caps:
+        rep.unknown(rule, "package", "no capped growth of delta found: the cap cannot be read off")
+        return
+    cap = min(caps)
+    solve = eng.fn("solver.solve")
+    cfg = eng.cfg(solve)
+    found = None
+    for sn in _input_error_sites(eng, solve, cfg):
+        for gl in _site_guard_sets(eng, cfg, sn):
+            for a in gl:
+                # cap < rhobeg  /  cap <= rhobeg
+                if a.op in ("lt", "le") and const_value(a.lhs) is not None and float(const_value(a.lhs)) <= cap and isinstance(a.rhs, ast.Name) and a.rhs.id == "rhobeg":
+                    found = sn
+    site = eng.where(solve)
+    if found is not None:
+        rep.ok(rule, eng.where(solve, cfg.ast_of(found)), "rhobeg above the cap %g of delta is rejected with the input-error flag: the first recorded delta is within the cap" % cap)
+    else:
+        rep.bad(rule, site, "solver.solve|initial-radius-not-validated-against-the-cap",
+                "no input-error guard rejects rhobeg > %g, the cap every growth of delta is held to: with a larger rhobeg every recorded row has delta = rhobeg above the cap" % cap)
+
+
 def run(eng, rep):
     rep.explain("C18 (structural clauses): forward data-flow of the fact delta >= rho through solve_main and the Controller methods that write delta/rho, with "
                 "inference rules for max/min, literal factors >= 1 and the false edge of `delta <= c*rho`, option implications taken from solve's validation "
@@ -953,6 +989,7 @@ def run(eng, rep):
     rep.guarded(rule_delta_ge_rho, eng, rep)
     rep.guarded(rule_rho_writers, eng, rep)
     rep.guarded(rule_delta_cap, eng, rep)
+    rep.guarded(rule_initial_radius_is_below_the_cap, eng, rep)
     rep.guarded(rule_table_shape, eng, rep)
     rep.guarded(rule_rhoend_single_source, eng, rep)
     rep.guarded(rule_rho_between_rhoend_and_rhobeg, eng, rep)
